@@ -100,14 +100,31 @@ def run_case(spec):
         allm = []
         numbers = rng.choice([list(range(1, nmodels + 1)), list(range(9, 9 + nmodels)), [2, 10, 11][:nmodels],
                               list(range(nmodels, 0, -1))])
+        uneven = rng.random() < 0.5
         for k in range(nmodels):
             allm.append("MODEL     %4d" % numbers[k])
-            for it in body:
+            bk = list(body)
+            if uneven and k > 0:
+                # models of different size (different solvent per model): legal in both formats
+                atoms_k = [it for it in bk if isinstance(it, dict)]
+                if rng.random() < 0.5 and len(atoms_k) > 12:
+                    lastres = (atoms_k[-1]["chain"], atoms_k[-1]["resi"], atoms_k[-1]["icode"])
+                    bk = [it for it in bk if not (isinstance(it, dict) and (it["chain"], it["resi"], it["icode"]) == lastres)]
+                else:
+                    a0 = atoms_k[-1]
+                    extra = [dict(a0, rec="HETATM", name="O", resn="HOH", chain=a0["chain"] or "W", resi=900 + j, icode="",
+                                  alt="", x=a0["x"] + 9.0 + 3 * j, y=a0["y"] + 7.0, z=a0["z"] - 8.0, elem="O")
+                             for j in range(rng.randint(1, 3))]
+                    e = max(i for i, it in enumerate(bk) if isinstance(it, dict)) + 1
+                    bk[e:e] = extra
+            for it in bk:
                 if isinstance(it, dict):
                     allm.append(dict(it, x=it["x"] + 1.37 * k, y=it["y"] - 0.61 * k, z=it["z"] + 0.29 * k))
                 else:
                     allm.append(it)
             allm.append("ENDMDL")
+        if uneven:
+            feats.append("uneven_models")
         items = allm + ["END"]
     pdbfmt.renumber(items)
     label = rng.choice(["same", "wwpdb", "wwpdb"])
